@@ -6,8 +6,11 @@ Observation per case: ok | PANIC:... | fatal (the process died) | timeout.  A ch
 out is split down to single cases; a failing case is minimised and reported as VIOLATION with the case line
 (hex texts) as replay.  Generators: (v) corpus/C01 first, (i) grammar-directed module sets over the keyword
 table with every reference kind drawn from defined / undefined / self / cyclic / submodule-only / rejected
-text, (ii) statement-level mutation of the repository's YANG files, of the modules inlined in its tests and
-of (i), (iii) byte-level noise, (iv) histories interleaving loads, Process and reads under random options.
+text, (i-b) schema node paths (augment, deviation, leafref) written with dots, empty steps, odd prefixes, ending at
+module roots / rpc input and output / implicit cases, (i-c) small texts whose naive processing is super-linear
+(identity lattices, typedef chains, grouping towers, augment chains, include and import rings), each alone under
+its own time bound, (ii) statement-level mutation of the repository's YANG files, of the modules inlined in its
+tests and of (i), (iii) byte-level noise, (iv) histories interleaving loads, Process and reads under random options.
 
 No model is run here (NEED_ML = False): the model side of C01 is the totality theorems in
 coq/Properties/C01.v, re-checked by the proof step."""
@@ -1537,11 +1540,285 @@ def load_corpus():
     return out
 
 
+# ------------------------------------------------------------------ (i-b) schema node paths
+
+PATH_BASE = """module b {
+  yang-version 1.1;
+  namespace "urn:b";
+  prefix b;
+  %s
+  grouping g { container gc { leaf gl { type string; } } }
+  container c {
+    leaf l { type string; default d; }
+    list li { key k; leaf k { type string; } leaf v { type int8; } min-elements 1; }
+    choice ch { leaf s1 { type string; } case cs { leaf s2 { type string; } } container s3 { leaf in3 { type string; } } }
+    leaf-list ll { type string; max-elements 5; }
+    anyxml ax;
+    action act { input { leaf i { type string; } } }
+    notification nt { leaf n { type string; } }
+    container u { uses g; }
+  }
+  rpc r { input { leaf i { type string; } } }
+  rpc r2;
+  notification topn { leaf x { type string; } }
+  leaf top { type string; }
+  %s
+}
+"""
+# (steps, kind); a step "~x" is an implicit case (may be written or left out)
+PATH_NODES = [(["c"], "container"), (["c", "l"], "leaf"), (["c", "li"], "list"), (["c", "li", "k"], "key-leaf"),
+              (["c", "li", "v"], "leaf"), (["c", "ch"], "choice"), (["c", "ch", "~s1", "s1"], "implicit-case-leaf"),
+              (["c", "ch", "~s1"], "implicit-case"), (["c", "ch", "cs"], "case"), (["c", "ch", "cs", "s2"], "leaf"),
+              (["c", "ch", "~s3", "s3"], "implicit-case-container"), (["c", "ch", "~s3", "s3", "in3"], "leaf"),
+              (["c", "ll"], "leaf-list"), (["c", "ax"], "anyxml"), (["c", "act"], "action"),
+              (["c", "act", "input"], "action-input"), (["c", "act", "output"], "action-output-unwritten"),
+              (["c", "act", "input", "i"], "leaf"), (["c", "nt"], "notification"), (["c", "nt", "n"], "leaf"),
+              (["c", "u"], "container"), (["c", "u", "gc"], "uses-copy"), (["c", "u", "gc", "gl"], "uses-copy-leaf"),
+              (["r"], "rpc"), (["r", "input"], "rpc-input"), (["r", "input", "i"], "leaf"),
+              (["r", "output"], "rpc-output-unwritten"), (["r2"], "rpc"), (["r2", "input"], "rpc-input-unwritten"),
+              (["r2", "output"], "rpc-output-unwritten"), (["r2", "bogus"], "rpc-bad-step"), (["topn"], "notification"),
+              (["topn", "x"], "leaf"), (["top"], "leaf"), (["nosuch"], "missing"), (["c", "nosuch"], "missing"),
+              ([], "module-root")]
+
+
+def schema_path(rnd, dist, pfx):
+    """a schema node path to a node of PATH_BASE, written in one of many ways"""
+    steps, kind = rnd.choice(PATH_NODES)
+    dist["schema-path:target:" + kind] += 1
+    names = []
+    for st in steps:
+        if st.startswith("~"):
+            if rnd.random() < 0.5:
+                names.append(st[1:])
+        else:
+            names.append(st)
+    style = rnd.choice(["all", "all", "all", "none", "first", "mixed", "wrong"])
+    out = []
+    for i, n in enumerate(names):
+        q = {"all": pfx, "none": "", "first": pfx if i == 0 else "", "mixed": rnd.choice([pfx, ""]),
+             "wrong": pfx if rnd.random() < 0.7 else "zz"}[style]
+        out.append((q + ":" if q else "") + n)
+    for _ in range(rnd.choice([0, 0, 1, 1, 2, 3])):
+        ed = rnd.choice(["dot", "pair", "pair-missing", "up", "up", "up-to-root", "beyond-root", "empty-step", "trailing-slash",
+                         "leading-double-slash", "down-again"])
+        dist["schema-path:edit:" + ed] += 1
+        pos = rnd.randrange(len(out) + 1)
+        if ed == "dot":
+            out.insert(pos, ".")
+        elif ed == "pair":
+            out[pos:pos] = [rnd.choice([pfx + ":c", "c", pfx + ":top", pfx + ":r"]), ".."]
+        elif ed == "pair-missing":
+            out[pos:pos] = [pfx + ":nosuch", ".."]
+        elif ed == "up":
+            out += [".."] * rnd.choice([1, 1, 2])
+        elif ed == "up-to-root":
+            out += [".."] * sum(1 for x in out if x not in (".", "..") and x)
+        elif ed == "beyond-root":
+            out += [".."] * (len(out) + rnd.choice([1, 2, 5]))
+        elif ed == "empty-step":
+            out.insert(pos, "")
+        elif ed == "trailing-slash":
+            out.append("")
+        elif ed == "leading-double-slash":
+            out.insert(0, "")
+        elif ed == "down-again":
+            out += ["..", rnd.choice([pfx + ":c", pfx + ":r", pfx + ":top", "c"])]
+    r = rnd.random()
+    if r < 0.9:
+        return "/" + "/".join(out)
+    if r < 0.95:
+        dist["schema-path:relative"] += 1
+        return "/".join(out)
+    dist["schema-path:degenerate"] += 1
+    return rnd.choice(["/", "/.", "/..", ".", "..", "", "//", "/./.", "/../..", "/" + pfx + ":", "/:"])
+
+
+def path_case(rnd, dist):
+    where = rnd.choice(["same-module", "same-module", "importing-module", "importing-module", "submodule"])
+    dist["schema-path:placed-in:" + where] += 1
+    pfx = "b" if where != "importing-module" else rnd.choice(["b", "bb"])
+    stmts = []
+    for _ in range(rnd.choice([1, 1, 1, 2, 3])):
+        kind = rnd.choice(["deviation", "deviation", "augment", "leafref"])
+        path = schema_path(rnd, dist, pfx)
+        if kind == "deviation":
+            devs = []
+            for _ in range(rnd.choice([1, 1, 1, 2])):
+                d = rnd.choice(["not-supported", "not-supported", "add", "replace", "delete"])
+                dist["schema-path:deviate:" + d] += 1
+                if d == "not-supported":
+                    devs.append("deviate not-supported;")
+                else:
+                    props = rnd.sample(['default "d";', "config false;", "mandatory true;", "min-elements 1;", "max-elements 5;",
+                                        'units "u";', "type int8;", "type nosuch;", 'default "x";', "min-elements 0;"],
+                                       rnd.choice([0, 1, 1, 2]))
+                    devs.append("deviate %s { %s }" % (d, " ".join(props)))
+            stmts.append('deviation "%s" { %s }' % (path, " ".join(devs)))
+        elif kind == "augment":
+            dist["schema-path:augment"] += 1
+            body = rnd.choice(["leaf nw { type string; }", "container nw { leaf z { type string; } }", "case nc { leaf nw { type string; } }",
+                               "leaf l { type string; }", "leaf s1 { type string; }", "uses %s:g;" % pfx, ""])
+            stmts.append('augment "%s" { %s }' % (path, body))
+        else:
+            dist["schema-path:leafref"] += 1
+            if rnd.random() < 0.5:
+                path = "../" * rnd.choice([1, 2, 3, 8]) + path.lstrip("/")
+            stmts.append('container lrc%d { leaf lr { type leafref { path "%s"; } } }' % (rnd.randrange(1000), path))
+    body = "\n  ".join(stmts)
+    if where == "same-module":
+        texts = [("b.yang", PATH_BASE % ("", body))]
+    elif where == "submodule":
+        texts = [("b.yang", PATH_BASE % ("include bs;", "")),
+                 ("bs.yang", "submodule bs {\n  belongs-to b { prefix b; }\n  %s\n}\n" % body)]
+    else:
+        texts = [("b.yang", PATH_BASE % ("", "")),
+                 ("d.yang", 'module d {\n  namespace "urn:d";\n  prefix d;\n  import b { prefix %s; }\n  %s\n}\n' % (pfx, body))]
+    return hist_line(options(rnd, dist), history(rnd, texts, dist), texts)
+
+
+# ------------------------------------------------------------------ (i-c) small texts whose naive processing blows up
+
+def module_text(name, body, imports=()):
+    imp = "".join("  import %s { prefix %s; }\n" % (m, m) for m in imports)
+    return "module %s {\n  namespace \"urn:%s\";\n  prefix %s;\n%s%s}\n" % (name, name, name, imp, body)
+
+
+def blowup_cases(tier, seed):
+    """[(label, line)]: every case is cheap for an implementation that memoises / marks what it has visited
+    (measured on the clean tree: each well under BLOWUP_TIMEOUT / 20) and super-linear for one that does not"""
+    rnd = random.Random("C01/blowup/%d" % seed)
+    big = tier != "quick"
+    out = []
+
+    def add(label, texts, opts="fq", ops=None):
+        ops = ops or ",".join("L%d" % i for i in range(len(texts))) + ",P"
+        out.append(("blowup:" + label, hist_line(opts, ops, texts)))
+
+    # identity lattices: stacked diamonds, every identity derived from all (or two) identities of the layer above
+    for layers, width in [(10, 2), (18, 2), (30, 2), (40, 2), (60, 2), (12, 3), (25, 3), (40, 3)] + \
+            ([(rnd.randint(10, 60), rnd.choice([2, 3])) for _ in range(12)] if big else []):
+        b = "  identity top;\n"
+        for l in range(layers):
+            for w in range(width):
+                above = ["top"] if l == 0 else ["i%d_%d" % (l - 1, x) for x in range(width)]
+                if width == 3 and rnd.random() < 0.5:
+                    above = rnd.sample(above, min(2, len(above)))
+                b += "  identity i%d_%d { %s }\n" % (l, w, " ".join("base %s;" % a for a in above))
+        b += "  leaf r { type identityref { base top; } }\n  leaf m { type identityref { base i%d_0; } }\n" % (layers // 2)
+        add("identity-lattice:%dx%d" % (layers, width), [("il.yang", module_text("il", b))])
+    # the same lattice split over two modules that import each other
+    b0 = "  identity top;\n"
+    b1 = ""
+    for l in range(30):
+        for w in range(2):
+            above = ["il0:top"] if l == 0 else ["il%d:j%d_%d" % ((l - 1) % 2, l - 1, x) for x in range(2)]
+            line = "  identity j%d_%d { %s }\n" % (l, w, " ".join("base %s;" % a for a in above))
+            if l % 2 == 0:
+                b0 += line
+            else:
+                b1 += line
+    add("identity-lattice:two-modules", [("il0.yang", module_text("il0", b0, ["il1"])), ("il1.yang", module_text("il1", b1, ["il0"]))])
+    # typedef chains and unions of unions
+    for n in [50, 300, 1000] + ([3000] if big else []):
+        b = "  typedef t0 { type string { length 0..4000; } }\n"
+        for i in range(1, n):
+            b += "  typedef t%d { type t%d { length 0..%d; pattern \"p%d\"; } }\n" % (i, i - 1, 4000 - i, i % 7)
+        b += "  leaf l { type t%d; }\n  leaf m { type t%d; }\n" % (n - 1, n // 2)
+        add("typedef-chain:%d" % n, [("tc.yang", module_text("tc", b))])
+    for d in [4, 8, 12] + ([16, 20] if big else []):
+        b = "  typedef u0 { type union { type string; type int8; } }\n"
+        for i in range(1, d):
+            b += "  typedef u%d { type union { type u%d; type u%d { pattern \"x\"; } type int%d; } }\n" % (i, i - 1, i - 1, [8, 16, 32, 64][i % 4])
+        b += "  leaf l { type u%d; }\n" % (d - 1)
+        add("union-of-unions:%d" % d, [("uu.yang", module_text("uu", b))])
+    # grouping towers: level i uses level i-1 twice; expansion 2^depth leaves, capped at 2^12
+    for d in [4, 8, 10, 12]:
+        b = "  grouping g0 { leaf l { type string; } }\n"
+        for i in range(1, d + 1):
+            b += "  grouping g%d { container a { uses g%d; } container b { uses g%d; } }\n" % (i, i - 1, i - 1)
+        b += "  container top { uses g%d; }\n" % d
+        add("grouping-tower:%d" % d, [("gt.yang", module_text("gt", b))], opts="-" if d >= 10 else "fq")
+    # long augment chains, written so that every pass of the retry loop can apply only one of them
+    for n in [20, 100] + ([300] if big else []):
+        b = "  container base;\n"
+        for i in reversed(range(n)):
+            path = "/ac:base" + "".join("/ac:n%d" % j for j in range(i))
+            b += "  augment \"%s\" { container n%d; }\n" % (path, i)
+        add("augment-chain:%d" % n, [("ac.yang", module_text("ac", b))], opts="-")
+    # chains of augments spread over many modules
+    n = 30
+    texts = [("am0.yang", module_text("am0", "  container base;\n"))]
+    for i in range(1, n):
+        path = "/am0:base" + "".join("/am%d:n%d" % (j, j) for j in range(1, i))
+        texts.append(("am%d.yang" % i, module_text("am%d" % i, "  augment \"%s\" { container n%d; }\n" % (path, i),
+                                                   ["am%d" % j for j in range(i)])))
+    texts.reverse()
+    add("augment-chain:30-modules", texts, opts="-")
+    # many submodules that all include each other
+    for n in [10, 40] + ([120] if big else []):
+        inc = "".join("  include s%d;\n" % i for i in range(n))
+        texts = [("mi.yang", "module mi {\n  namespace \"urn:mi\";\n  prefix mi;\n%s  container c { uses g%d; leaf l { type t0; } }\n}\n" % (inc, n - 1))]
+        for i in range(n):
+            texts.append(("s%d.yang" % i, "submodule s%d {\n  belongs-to mi { prefix mi; }\n%s  typedef t%d { type %s; }\n  grouping g%d { leaf l%d { type t%d; } %s }\n}\n"
+                          % (i, inc.replace("  include s%d;\n" % i, ""), i, "string" if i == n - 1 else "t%d" % (i + 1), i, i, (i * 7) % n,
+                             "" if i == 0 else "uses g%d;" % (i - 1))))
+        add("mutual-includes:%d" % n, texts, opts="cfq")
+        add("mutual-includes:%d:no-c" % n, texts, opts="-")
+    # a ring of modules importing each other, groupings chained round the ring
+    for n in [10, 60]:
+        texts = []
+        for i in range(n):
+            nxt = (i + 1) % n
+            body = "  grouping g { leaf l%d { type string; } %s }\n  container c%d { uses im%d:g; }\n" % (i, "" if i == n - 1 else "uses im%d:g;" % nxt, i, nxt)
+            texts.append(("im%d.yang" % i, module_text("im%d" % i, body, ["im%d" % nxt])))
+        add("import-ring:%d" % n, texts)
+    # deviations: many on one node; long paths of "x/.." pairs
+    b = "  container c { leaf l { type string; } list li { key k; leaf k { type string; } } }\n"
+    for i in range(200):
+        b += "  deviation /dv:c/dv:li { deviate replace { min-elements %d; } }\n" % (i % 5)
+    add("deviations:200-on-one-node", [("dv.yang", module_text("dv", b))])
+    for n in [100, 2000]:
+        b = "  container c { leaf l { type string; } }\n  deviation \"/dv:c%s/dv:l\" { deviate add { default d; } }\n" % ("/.." * 0 + "/dv:l/.." * n)
+        b += "  augment \"/dv:c%s\" { leaf z { type string; } }\n" % ("/dv:l/.." * n)
+        add("long-dotdot-path:%d" % n, [("dv.yang", module_text("dv", b))])
+    # feature and leafref rings, wide choices
+    b = "".join("  feature f%d { if-feature f%d; }\n" % (i, (i + 1) % 200) for i in range(200))
+    b += "  container c {\n" + "".join("    leaf r%d { type leafref { path \"../r%d\"; } }\n" % (i, (i + 1) % 200) for i in range(200)) + "  }\n"
+    add("feature-and-leafref-rings:200", [("fr.yang", module_text("fr", b))])
+    b = "  choice ch {\n" + "".join("    leaf s%d { type string; }\n    case c%d { leaf t%d { type string; } }\n" % (i, i, i) for i in range(500)) + "  }\n"
+    add("wide-choice:500", [("wc.yang", module_text("wc", b))])
+    return out
+
+
+BLOWUP_TIMEOUT = 20        # seconds per case alone; the clean tree needs well under 1/20 of it (see evidence)
+
+
+def run_blowup(res, cases, cwd, outcomes, bad_by_sig, timing):
+    def one(c, bound=BLOWUP_TIMEOUT):
+        t0 = time.time()
+        cls, o = run_single(c[1], cwd, timeout=bound)
+        return cls, o, time.time() - t0
+    with ThreadPoolExecutor(max_workers=max(2, lib.NCPU // 2)) as ex:
+        rs = list(ex.map(one, cases))
+    # a case that ran out of time is run once more with three times the bound and little else going on
+    slow = [i for i, r in enumerate(rs) if r[0] == "timeout"]
+    with ThreadPoolExecutor(max_workers=4) as ex:
+        again = list(ex.map(lambda i: one(cases[i], 3 * BLOWUP_TIMEOUT), slow))
+    for i, r in zip(slow, again):
+        rs[i] = r if r[0] != "timeout" else ("timeout", "no answer within %ds (again: %ds)" % (BLOWUP_TIMEOUT, 3 * BLOWUP_TIMEOUT), r[2])
+    for (gen, line), (cls, o, dt) in zip(cases, rs):
+        timing[gen] = round(max(timing.get(gen, 0), dt), 3)
+        outcomes[cls] += 1
+        outcomes["blowup:" + cls] += 1
+        if cls != "ok":
+            bad_by_sig.setdefault(signature(cls, o) + (" [%s]" % gen.split(":")[1] if cls == "timeout" else ""), []).append((gen, line, cls, o))
+
+
 # ------------------------------------------------------------------ case streams
 
 def gen_chunk(arg):
     """one deterministic slice of the case stream: (tier, seed, k) -> (cases [(generator, line)], distribution)"""
-    tier, seed, k, nsets, nmut, nnoise = arg
+    tier, seed, k, nsets, nmut, nnoise, npaths = arg
     rnd = random.Random("C01/%d/%d" % (seed, k))
     tb = Table()
     dist = collections.Counter()
@@ -1564,6 +1841,8 @@ def gen_chunk(arg):
         if rnd.random() < 0.35:
             mt = mutate_group(rnd, texts, tb, dist)
             cases.append(("sets+mutation", hist_line(options(rnd, dist), history(rnd, mt, dist), mt)))
+    for _ in range(npaths):
+        cases.append(("schema-paths", path_case(rnd, dist)))
     for _ in range(nmut):
         r = rnd.random()
         if r < 0.35 and groups:
@@ -1599,8 +1878,8 @@ def gen_chunk(arg):
 
 def plan(tier):
     if tier == "quick":
-        return [(40, 150, 110, 110)]            # (chunks, sets, mutations, noise texts) per chunk
-    return [(768, 150, 110, 110)]
+        return [(40, 140, 100, 100, 60)]        # (chunks, sets, mutations, noise texts, schema-path cases) per chunk
+    return [(768, 140, 100, 100, 60)]
 
 
 # ------------------------------------------------------------------ minimisation
@@ -1617,6 +1896,8 @@ def texts_of(line):
 
 def minimise(line, sig, cwd, budget_s=150, max_runs=600):
     t0 = time.time()
+    if sig.startswith("timeout"):
+        budget_s = 60              # every probe of a hang costs its time limit
     runs = [0]
     tmo = 8 if sig.startswith("timeout") else SINGLE_TIMEOUT
 
@@ -1625,7 +1906,7 @@ def minimise(line, sig, cwd, budget_s=150, max_runs=600):
             return False
         runs[0] += 1
         c, o = run_single(l, cwd, timeout=tmo)
-        return c in BAD and sig in signatures(c, o)
+        return c in BAD and (sig in signatures(c, o) or (c == "timeout" and sig.startswith("timeout")))
 
     case = decode_case(line)
 
@@ -1722,8 +2003,8 @@ def minimise(line, sig, cwd, budget_s=150, max_runs=600):
             case["text"] = b
         shrink_text(get, put)
     out = encode_case(case)
-    c, o = run_single(out, cwd, timeout=tmo)
-    if c in BAD and sig in signatures(c, o):
+    c, o = run_single(out, cwd, timeout=max(tmo, SINGLE_TIMEOUT))
+    if c in BAD and (sig in signatures(c, o) or (c == "timeout" and sig.startswith("timeout"))):
         o = ([x for x in o.split(" ALSO ") if signature(c, x) == sig] + [o])[0]
         return out, c, o, runs[0]
     return line, None, None, runs[0]
@@ -1787,6 +2068,7 @@ def run(res, tier, seed, proof):
     per_gen = collections.Counter()
     bad_by_sig = collections.OrderedDict()
     samples = []
+    timing = {}
     evaluations = nontrivial = 0
     try:
         def consume(cases):
@@ -1821,11 +2103,16 @@ def run(res, tier, seed, proof):
         corpus = load_corpus()
         dist["corpus-cases"] = len(corpus)
         consume(corpus)
+        blow = blowup_cases(tier, seed)
+        dist["blowup-cases"] = len(blow)
+        run_blowup(res, blow, cwd, outcomes, bad_by_sig, timing)
+        evaluations += len(blow)
+        per_gen["blowup"] += len(blow)
         work = []
         k = 0
-        for chunks, ns, nm, nn in plan(tier):
+        for chunks, ns, nm, nn, npth in plan(tier):
             for _ in range(chunks):
-                work.append((tier, seed, k, ns, nm, nn))
+                work.append((tier, seed, k, ns, nm, nn, npth))
                 k += 1
         import multiprocessing
         batch = 64 if tier != "quick" else 20
@@ -1876,6 +2163,7 @@ def run(res, tier, seed, proof):
         exhaustive=False, outcomes=dict(outcomes), cases_per_generator=dict(per_gen),
         failing_signatures={s: len(l) for s, l in bad_by_sig.items()},
         runner=dict(stats), table_fields_exercised=table_fields,
+        blowup_seconds=dict(bound=BLOWUP_TIMEOUT, slowest_case=max(timing.values()) if timing else 0, per_case=timing),
         distribution={k: v for k, v in sorted(dist.items()) if not k.startswith("table-field:")},
         samples=samples, generation_and_run_s=round(time.time() - t0, 1))
     assumptions = [
